@@ -219,7 +219,9 @@ pub fn check(bytes: &[u8], _ctx: &Ctx) -> Verdict {
                 };
                 let want = &prefix[tstar as usize - 1];
                 let (d, at) = max_diff(&want.solved.prof, &got.solved.prof);
-                let scale = want.solved.total_bound.abs().max(1e-300);
+                // relative to the size of the game's numbers: a bound that is zero up to rounding
+                // is a different residue with every summation order
+                let scale = crate::oracle::scale_of(&case.built.tree);
                 let bound_off = (0..2).any(|p| {
                     let (a, b) = (want.solved.bounds[p], got.solved.bounds[p]);
                     !(a == b || (a - b).abs() <= 1e-6 * scale.max(a.abs()))
